@@ -335,10 +335,14 @@ func init() {
 		pat := rePat(fr, a[0])
 		s, ok := a[1].(string)
 		repl, ok2 := a[2].(string)
-		if !ok || !ok2 {
-			unsup("ReplaceAllString on symbolic string (%s)", pat)
+		if ok && ok2 {
+			return compileRe(pat).goRe.ReplaceAllString(s, repl)
 		}
-		return compileRe(pat).goRe.ReplaceAllString(s, repl)
+		if pat == "(?m)^[ \\t]+" && ok2 && repl == "" {
+			return fr.i.undent(a[1])
+		}
+		unsup("ReplaceAllString on symbolic string (%s)", pat)
+		return nil
 	}
 	intrinsics["(*regexp.Regexp).FindString"] = func(fr *frame, a []value) value {
 		pat := rePat(fr, a[0])
@@ -348,4 +352,56 @@ func init() {
 		}
 		return compileRe(pat).goRe.FindString(s)
 	}
+}
+
+// undent models ReplaceAllString(`(?m)^[ \t]+`, "") segment-wise: concrete
+// segments are rewritten with the real regexp (given whether they start at a
+// line start), white-space segments become a fresh white-space segment, and
+// "undented" segments (no blank at any line start) are unchanged.
+func (i *interpreter) undent(s value) value {
+	p := i.path
+	re := regexp.MustCompile(`(?m)^[ \t]+`)
+	var out value = ""
+	atStart := true // the next byte is at a line start
+	for _, sg := range segmentsOf(s) {
+		switch sg := sg.(type) {
+		case string:
+			if sg == "" {
+				continue
+			}
+			t := sg
+			if atStart {
+				t = re.ReplaceAllString(sg, "")
+			} else {
+				// protect the first line fragment
+				k := strings.IndexByte(sg, '\n')
+				if k >= 0 {
+					t = sg[:k+1] + re.ReplaceAllString(sg[k+1:], "")
+				}
+			}
+			out = mkConcat(out, t)
+			last := sg[len(sg)-1]
+			atStart = last == '\n' || (atStart && strings.Trim(sg, " \t") == "") || (strings.LastIndexByte(sg, '\n') >= 0 && strings.Trim(sg[strings.LastIndexByte(sg, '\n')+1:], " \t") == "")
+		case *Sym:
+			switch {
+			case p.facts["class|asciiws|"+sg.e] && p.memo["undent|"+sg.e] != nil:
+				out = mkConcat(out, p.memo["undent|"+sg.e].(*Sym))
+				atStart = true
+			case p.facts["class|asciiws|"+sg.e]:
+				w := p.freshVar("undws", SStr)
+				p.memo["undent|"+sg.e] = w
+				p.classCons = append(p.classCons, classCon{w, "(re.* (re.union (re.range \"\\u{9}\" \"\\u{d}\") (str.to_re \" \")))", "asciiws"})
+				p.pc = append(p.pc, "(<= (str.len "+w.e+") (str.len "+sg.e+"))")
+				p.facts["class|asciiws|"+w.e] = true
+				out = mkConcat(out, w)
+				atStart = true // conservatively: following blanks would be removed; callers keep non-blank starts after ws
+			case p.facts["class|undented|"+sg.e]:
+				out = mkConcat(out, sg)
+				atStart = false
+			default:
+				unsup("Undent (ReplaceAllString) on an unstructured symbolic string")
+			}
+		}
+	}
+	return out
 }
